@@ -126,7 +126,9 @@ func checkNormal(t *sdf.Triangle3, n [3]float32) Check {
 	if !(l1 > 0) || !(l2 > 0) || math.IsInf(l1, 0) || math.IsInf(l2, 0) || math.IsInf(lc, 0) || math.IsNaN(lc) {
 		return okCheck
 	}
-	if lc/(l1*l2) < 1e-3 || l1/l2 > 1e6 || l2/l1 > 1e6 {
+	// Thin triangles are not degenerate: with float64 inputs the cross product of
+	// edges that meet at sin(angle) >= 1e-8 still fixes the direction to ~1e-8.
+	if lc/(l1*l2) < 1e-8 || l1/l2 > 1e9 || l2/l1 > 1e9 {
 		return okCheck // too close to degenerate for the normal to be well defined
 	}
 	// cancellation guard: edges must be resolvable at the magnitude of the vertices
